@@ -19,11 +19,11 @@ VALS = {
  "l[]": "(ㅁㄹㅎㄱ)", "l[1]": "(ㄴ ㅁㄹㅎㄴ)", "l['1','2']": "(ㄴ ㅁㅈㅎㄴ ㄷ ㅁㅈㅎㄴ ㅁㄹㅎㄷ)", "l[1,'1']": "(ㄴ ㄴ ㅁㅈㅎㄴ ㅁㄹㅎㄷ)", "l[bomb]": "(ㄴ ㄱ ㄴㄴㅎㄷ ㅁㄹㅎㄴ)",
  "d{}": "(ㅅㅈㅎㄱ)", "d{0:1}": "(ㄱ ㄴ ㅅㅈㅎㄷ)",
  "fn": "(ㄱㅇㄱ ㅎ)", "fnK": "(ㄴ ㅎ)",
- "ioR": "(ㄱ ㄱㅅㅎㄴ)", "ioI": "(ㄹㅎㄱ)",
+ "ioR": "(ㄱ ㄱㅅㅎㄴ)", "ioI": "(ㄹㅎㄱ)", "ioP": "(ㄴ ㅁㅈㅎㄴ ㅈㄹㅎㄴ)", "ioB": "((ㄱ ㄱㅅㅎㄴ) ㄱㅅ ㄱㄹㅎㄷ)", "ioB3": "((ㄹㅎㄱ) (ㄱㅇㄱ ㄱㅅㅎㄴ ㅎ) ㄱㅅ ㄱㄹㅎㄹ)", "l[ioB]": "(((ㄱ ㄱㅅㅎㄴ) ㄱㅅ ㄱㄹㅎㄷ) ㅁㄹㅎㄴ)",
  "e[]": "(ㄷㅂㅎㄱ)", "e[0]": "(ㄱ ㄷㅂㅎㄴ)",
  "nil": "(ㅂㄱㅎㄱ)",
 }
-SMALL = ["i0", "i1", "i-1", "ihuge", "f0", "finf", "fnan", "s''", "s'ab'", "y''", "l[]", "l[1]", "d{}", "fn", "bT", "nil", "e[0]", "ioR", "ci"]
+SMALL = ["i0", "i1", "i-1", "ihuge", "f0", "finf", "fnan", "s''", "s'ab'", "y''", "l[]", "l[1]", "d{}", "fn", "bT", "nil", "e[0]", "ioR", "ioB", "ci"]
 BUILTINS = "ㄱ ㄷ ㅅ ㄴㄴ ㄴㅁ ㄷㅂ ㅁㄹ ㅁㅈ ㅂㄱ ㅂㅅ ㅅㅅ ㅅㅈ ㅈㅅ ㄷㅈ ㅅㄷ ㄴㄱ ㅁㅂ ㅂㅂ ㄹ ㅈㄹ ㄱㅅ ㄱㄹ ㄱㄴ ㄴ ㅁ ㅈ ㅈㅈ ㄱㅈ ㅂ ㅈㄷ ㅂㅈ ㅁㄷ ㅅㅂ ㅅㄹ ㅂㄹ ㄱㅁ".split()
 MODS = {"bit." + k: f"(ㅂ ㅂㄷ {k} ㅂㅎㄹ)" for k in "ㄱ ㄷ ㅁ ㅂ ㅈ".split()}
 MODS.update({"math." + k: f"(ㅂ ㅅ {k} ㅂㅎㄹ)" for k in "ㄱ ㄴㄴ ㅁㄴ ㅈㄷ ㄹㄱ ㅅㄴ ㄴㅅ ㄱㅅ ㅅㄱ ㄷㄴ ㄴㄷ".split()})
@@ -150,6 +150,49 @@ def _ladder_one(case):
     finally:
         signal.setitimer(signal.ITIMER_REAL, 0); sys.stdin, sys.stdout = old; sys.setrecursionlimit(1000); interpret.StackFrame = Orig
     return res, round(time.time() - t, 2), (rec.maxd if rec else None), peak[0]
+
+def io_device_faults(r, seed, tier, model_ok):
+    """the standard streams refusing service: stdout on a device that rejects the write - noticed at once (write-through stream) or only when the
+    buffer is flushed (block-buffered stream: a pipe, a file) - and stdin failing to read: ㅈㄹ / ㄹ must raise the language's OS exception
+    (errno kept), which the reject handler of ㄱㄹ receives; never a host OSError"""
+    import errno as _errno
+    parse, interpret, AS, M = vlib.mods()
+    class RawOut(io.RawIOBase):
+        def __init__(s, code): s.code = code
+        def writable(s): return True
+        def write(s, b): raise OSError(s.code, os.strerror(s.code))
+    class RawIn(io.RawIOBase):
+        def __init__(s, code): s.code = code
+        def readable(s): return True
+        def readinto(s, b): raise OSError(s.code, os.strerror(s.code))
+    def run(prog, out_mode, in_mode, code):
+        old = sys.stdin, sys.stdout
+        if out_mode == "ok": so = io.StringIO()
+        else: so = io.TextIOWrapper(io.BufferedWriter(RawOut(code), buffer_size=(8192 if out_mode == "buffered" else 1)), encoding="utf-8", newline="\n", write_through=(out_mode == "write-through"))
+        si = io.StringIO("l1\nl2\n") if in_mode == "ok" else io.TextIOWrapper(io.BufferedReader(RawIn(code)), encoding="utf-8")
+        sys.stdin, sys.stdout = si, so
+        try:
+            try: res = "V " + " | ".join(M.main("<t>", prog, False))
+            except AS.UnsuspectedHangeulError as e: res = "E " + ",".join(str(v.value) if isinstance(v, AS.Integer) else "?" for v in e.err.value)
+            except BaseException as e: res = vlib.host_site(e)
+        finally:
+            sys.stdin, sys.stdout = old
+            try: so.detach() if out_mode != "ok" else None
+            except Exception: pass
+        return res
+    bad = []; cnt = collections.Counter(); n = 0
+    PR = "(ㄴ ㅁㅈㅎㄴ ㅈㄹㅎㄴ)"; RD = "(ㄹㅎㄱ)"
+    for code in (_errno.ENOSPC, _errno.EPIPE, _errno.EIO):
+        for out_mode in ("buffered", "write-through"):
+            for prog, want in ((PR, f"E 5,-63,{code}"), (f"{PR} ㄱㅅ ((ㅈ ㄱㅅㅎㄴ) ㅎ) ㄱㄹㅎㄹ", "V 7"), (f"{PR} ㄱㅅ (ㄱㅇㄱ ㄱㅅㅎㄴ ㅎ) ㄱㄹㅎㄹ", f"V <예외: [5, -63, {code}]>"),
+                               (f"(ㄱ ㄱㅅㅎㄴ) (({PR}) ㅎ) ㄱㄹㅎㄷ", f"E 5,-63,{code}"), (f"((ㄱ ㄱㅅㅎㄴ) (({PR}) ㅎ) ㄱㄹㅎㄷ) ㄱㅅ ((ㄷ ㄱㅅㅎㄴ) ㅎ) ㄱㄹㅎㄹ", "V 2"),
+                               (f"{PR} (({PR}) ㅎ) ((ㄹ ㄱㅅㅎㄴ) ㅎ) ㄱㄹㅎㄹ", "V 3"), ("(ㄱ ㄱㅅㅎㄴ)", "V 0")):
+                got = run(prog, out_mode, "ok", code); n += 1; cnt[f"stdout-{out_mode}:" + got.split()[0]] += 1
+                if got != want: bad.append(dict(program=prog, impl=got, model=f"{want} (stdout refuses the write with errno {code}, stream {out_mode})", which=["device-fault"]))
+        for prog, want in ((RD, f"E 5,-63,{code}"), (f"{RD} ㄱㅅ ((ㅈ ㄱㅅㅎㄴ) ㅎ) ㄱㄹㅎㄹ", "V 7"), (f"{RD} ㄱㅅ (ㄱㅇㄱ ㄱㅅㅎㄴ ㅎ) ㄱㄹㅎㄹ", f"V <예외: [5, -63, {code}]>")):
+            got = run(prog, "ok", "fail", code); n += 1; cnt["stdin:" + got.split()[0]] += 1
+            if got != want: bad.append(dict(program=prog, impl=got, model=f"{want} (stdin fails to read with errno {code})", which=["device-fault"]))
+    r.slice("io_device_faults", n, n, [PR], dict(cnt), "ㅈㄹ on a stdout whose device rejects the write (noticed at the write, or only at the flush of a block-buffered stream) and ㄹ on a stdin that fails: language OS exception with the errno, delivered to the reject handler", bad[:40])
 
 def loops(n):
     """tail-loop families, each applied to n iterations: name -> (program, expected printed result)"""
